@@ -8,7 +8,7 @@
    severity of every diagnostic that survived the ignore comments.  [effective c d] is the severity
    after the rule overrides of .falco.yml. *)
 From Coq Require Import List Bool Arith.
-From Falco Require Import Base.Bytes Model.Verdict Proofs.VerdictProofs.
+From Falco Require Import Base.Bytes Gen.LintGen Model.Verdict Model.VerdictExt Proofs.VerdictProofs Proofs.VerdictExtProofs.
 Import ListNotations.
 Open Scope list_scope.
 
@@ -69,6 +69,67 @@ Theorem C04_terminal_spec :
     else map (fun d => (fst d, effective c d)) (filter (fun d => visible (verbosity c) (effective c d)) (diags x)).
 Proof. exact terminal_spec. Qed.
 
+(* ---------------------------------------------------------------- overrides, cascade, files, sub-commands *)
+
+(* the exit status and the counts are a function of the syntax-error flags and of the sequence of EFFECTIVE
+   severities (after the rule overrides of .falco.yaml) - of nothing else: not of the rule names, not of
+   the intrinsic severities, not of any flag *)
+Theorem C04_verdict_function_of_effective :
+  forall c c' x x',
+    parse_error_main x = parse_error_main x' -> parse_error_included x = parse_error_included x' ->
+    map (effective c) (diags x) = map (effective c') (diags x') ->
+    exit (run_lint c x) = exit (run_lint c' x') /\ summary (run_lint c x) = summary (run_lint c' x').
+Proof. exact verdict_function_of_effective. Qed.
+
+(* remapping a rule to IGNORE removes exactly its diagnostics: the whole outcome (exit status, summary,
+   -json document, terminal) is the outcome of the program without them *)
+Theorem C04_ignore_override_removes_exactly :
+  forall c r x, run_lint (with_ignore c r) x = run_lint c (without r x).
+Proof. exact ignore_override_removes_exactly. Qed.
+
+(* the configuration cascade (yaml `linter.verbose`, flags in any order, repeated): the resulting
+   configuration depends on the SET of flags; exit status and counts depend on the yaml rules only *)
+Theorem C04_cfg_of_flag_set :
+  forall yv rules fl fl', (forall g, In g fl <-> In g fl') -> cfg_of yv rules fl = cfg_of yv rules fl'.
+Proof. exact cfg_of_flag_set. Qed.
+
+Theorem C04_cascade_irrelevant :
+  forall yv yv' rules fl fl' x,
+    exit (run_lint (cfg_of yv rules fl) x) = exit (run_lint (cfg_of yv' rules fl') x) /\
+    summary (run_lint (cfg_of yv rules fl) x) = summary (run_lint (cfg_of yv' rules fl') x).
+Proof. exact cascade_irrelevant. Qed.
+
+Theorem C04_cascade_verbosity :
+  forall yv rules fl,
+    verbosity (cfg_of yv rules fl) =
+    if has FVV fl || match yv with YInfo => true | _ => false end then 2
+    else if has FV fl || match yv with YWarning => true | _ => false end then 1 else 0.
+Proof. exact cascade_verbosity. Qed.
+
+(* -json with several files (includes): one entry per file that has a non-ignored diagnostic, holding exactly
+   that file's diagnostics in order with their effective severity; nothing dropped, nothing listed twice *)
+Theorem C04_doc_files_spec :
+  forall c fds f,
+    lookup f (doc_files c fds) = match listed c (of_file f fds) with [] => None | l => Some l end.
+Proof. exact doc_files_spec. Qed.
+
+Theorem C04_doc_files_total :
+  forall c fds, List.length (concat (map snd (doc_files c fds))) = List.length (listed c (map snd fds)).
+Proof. exact doc_files_total. Qed.
+
+(* falco stats fails exactly on a syntax error, in the main file or in an included module (after the repair) *)
+Theorem C04_stats_exit_iff :
+  forall x, run_stats x <> 0 <-> parse_error_main x = true \/ parse_error_included x = true.
+Proof. exact stats_exit_iff. Qed.
+
+(* the regenerated spellings (Gen/LintGen.v): the four severities print differently, NewRunner accepts exactly
+   the four level words, each selecting the severity of the same name *)
+Theorem C04_spellings :
+  NoDup severity_strings /\
+  map (fun p => parse_level (fst p)) override_words = [Some SevError; Some SevWarning; Some SevInfo; Some SevIgnore] /\
+  map sev_of_string severity_strings = [Some SevError; Some SevWarning; Some SevInfo; Some SevIgnore].
+Proof. exact spellings_ok. Qed.
+
 (* non-vacuity witness (Proofs/VerdictProofs.v ex_overrides / ex_input): all four severities, an
    override in each direction, an invalid level: same verdict under every flag combination *)
 Theorem C04_ex_all_flags :
@@ -91,3 +152,12 @@ Print Assumptions C04_json_doc_spec.
 Print Assumptions C04_terminal_spec.
 Print Assumptions C04_ex_all_flags.
 Print Assumptions C04_unrepaired_json_swallows_parse_error.
+Print Assumptions C04_verdict_function_of_effective.
+Print Assumptions C04_ignore_override_removes_exactly.
+Print Assumptions C04_cfg_of_flag_set.
+Print Assumptions C04_cascade_irrelevant.
+Print Assumptions C04_cascade_verbosity.
+Print Assumptions C04_doc_files_spec.
+Print Assumptions C04_doc_files_total.
+Print Assumptions C04_stats_exit_iff.
+Print Assumptions C04_spellings.
